@@ -124,6 +124,8 @@ EFFECT_SHAPES = [
     ('Iterator_oneshot', 'Iterator[int]', [('a', LOI)], 'uc.UIterator(a)', 'x._k', []),
     ('Iterable_sized_oneshot', 'Iterable[int]', [('a', LOI)], 'uc.USizedIterator(a)', 'x._k', []),
     ('Tuple_Iterator_int', 'Tuple[Iterator[int], int]', [('a', LOI), ('b', 'Optional[int]')], '(uc.UIterator(a), b)', 'x[0]._k', []),
+    # a conforming one-shot iterable *beside* the culprit: the explanation walks past it on its way to the failing item
+    ('Tuple_Iterable_oneshot_int', 'Tuple[Iterable[int], int]', [('a', LOI), ('b', 'Optional[int]')], '(uc.UIterator(a), b)', 'x[0]._k', []),
     ('Union_Iterator_str', 'Union[Iterator[int], str]', [('a', LOI)], 'uc.UIterator(a)', 'x._k', []),
     ('List_Iterable', 'List[Iterable[int]]', [('a', LOI)], '[uc.UIterator(a)]', 'x[0]._k', []),
     ('Sequence_user_contents', 'Sequence[int]', [('a', LOI)], 'uc.USeq(a)', 'len(x._i)', []),
@@ -161,7 +163,7 @@ WARM['Optional[int]'] = ['1', 'None']
 
 
 def specs_c10(tier, seed=0):
-    shapes = EFFECT_SHAPES if tier != 'quick' else [EFFECT_SHAPES[i] for i in (0, 3, 5, 8)]
+    shapes = EFFECT_SHAPES if tier != 'quick' else [EFFECT_SHAPES[i] for i in (0, 3, 4, 6, 9)]
     out = [effect_spec(s, {}, 'default') for s in shapes]
     if tier != 'quick':
         out += [effect_spec(s, {'violation_type': 'VerifWarning'}, 'warn') for s in EFFECT_SHAPES[:6]]
